@@ -756,6 +756,10 @@ def sweep(kinds=None, cls=None, fixtures_only=False):
         for label, units in rtf_cases():
             for ctx, data in rtf_documents(units):
                 docs.append((f"crafted:{label} ({ctx}).rtf", data))
+        for f_, label, data_ in spine_variants():
+            docs.append((f"crafted:{label} ({os.path.basename(f_)}).epub", data_))
+        for name_, data_, _what in collision_documents():
+            docs.append((name_, data_))
         for rel, pred, _key in DAMAGED:
             f = os.path.join(RES, rel)
             if os.path.exists(f):
@@ -777,6 +781,120 @@ def sweep(kinds=None, cls=None, fixtures_only=False):
                     continue
                 out.append(dict(x, file=name.replace(REPO + "/", ""), path_given=path is not None))
     return out
+
+
+# ------------------------------------------------------- field-name collisions --
+def collision_documents():
+    """Documents whose own attribute / property NAMES equal field names of the result's metadata class (filename, file_path,
+    title ...): a reader that copies name -> field generically must not let the document overwrite what comes from the path."""
+    from sharepoint2text.parsing.extractors import data_types as dt
+    import dataclasses
+    names = [f.name for f in dataclasses.fields(dt.HtmlMetadata)]
+    metas = "".join(f'<meta name="{n}" content="doc-says-{n}.bin">' for n in names) + "".join(f'<meta name="{n.upper()}" content="DOC-SAYS-{n}">' for n in names[:5])
+    yield "collision.html", f"<html><head><title>T</title>{metas}</head><body><p>x</p></body></html>".encode("utf-8"), "html <meta name=FIELD> for every field of HtmlMetadata"
+    f = os.path.join(RES, "open_office/headings.odt")
+    if os.path.exists(f):
+        import re
+        onames = [x.name for x in dataclasses.fields(dt.OpenDocumentMetadata)]
+        extra = "".join(f'<meta:user-defined meta:name="{n}">doc-says-{n}</meta:user-defined>' for n in onames)
+        buf = io.BytesIO()
+        try:
+            src = zipfile.ZipFile(f)
+            with zipfile.ZipFile(buf, "w", zipfile.ZIP_DEFLATED) as z:
+                for zi in src.infolist():
+                    data = src.read(zi.filename)
+                    if zi.filename == "meta.xml":
+                        data = re.sub(rb"(<office:meta[^>]*>)", lambda m: m.group(1) + extra.encode(), data, count=1)
+                    z.writestr(zi, data)
+            yield "collision.odt", buf.getvalue(), "odt meta:user-defined named after every field of OpenDocumentMetadata"
+        except Exception:  # noqa -- a fixture that cannot be re-packed gives no document
+            pass
+    try:      # OPF (EPUB) and OOXML core.xml property names
+        from replay import c04_collide
+        more = list(c04_collide.documents())
+    except Exception:  # noqa
+        more = []
+    yield from more
+
+
+def find_field_collisions(ob):
+    for name, data, what in collision_documents():
+        if "html" in ob and not name.endswith(".html"):
+            continue
+        for path in ("some/dir/" + name, None):
+            try:
+                F = failures_of(data, name, path)
+            except Exception:  # noqa
+                continue
+            bad = [x for x in F if x["kind"] in ("path-metadata", "accessor-raises", "not-str", "shared-metadata")]
+            if bad:
+                return {"reproduced": True, "target": "sharepoint2text extractor", "inputs": {"document": what, "bytes": data.decode("utf-8", "replace")[:600] if name.endswith(".html") else name, "path": path},
+                        "expected": "file name / extension / folder derived from the path argument (all None without path)", "observed": f"{bad[0]['where']}: {bad[0]['detail']}"}
+    return {"reproduced": False, "note": "documents naming their properties after metadata fields: path metadata unaffected"}
+
+
+# ------------------------------------------------------------ unit numbers --
+def spine_variants():
+    """EPUB fixtures with the flow attributes of the spine changed: first itemref linear="no" (the usual cover page), every
+    itemref linear="no", first itemref repeated -- documents that reach the branches where chapters are numbered differently."""
+    import re
+    for f in fixture_files():
+        if not f.lower().endswith(".epub"):
+            continue
+        try:
+            src = zipfile.ZipFile(f)
+            opf = [n for n in src.namelist() if n.endswith(".opf")][0]
+            text = src.read(opf).decode("utf-8")
+        except Exception:  # noqa
+            continue
+        refs = re.findall(r"<(?:opf:)?itemref\b[^>]*>", text)
+        if not refs:
+            continue
+
+        def mark(tag):
+            t = re.sub(r'\slinear="[^"]*"', "", tag)
+            return t[:-2] + ' linear="no"/>' if t.endswith("/>") else t[:-1] + ' linear="no">'
+        variants = {"first itemref linear=no": text.replace(refs[0], mark(refs[0]), 1),
+                    "every itemref linear=no": re.sub(r"<(?:opf:)?itemref\b[^>]*>", lambda m: mark(m.group(0)), text),
+                    "first itemref repeated": text.replace(refs[0], refs[0] + refs[0], 1)}
+        for label, new in variants.items():
+            buf = io.BytesIO()
+            try:
+                with zipfile.ZipFile(buf, "w", zipfile.ZIP_DEFLATED) as z:
+                    for zi in src.infolist():
+                        z.writestr(zi, new.encode("utf-8") if zi.filename == opf else src.read(zi.filename))
+            except Exception:  # noqa -- a fixture with a damaged member cannot be re-packed: no variant of it
+                break
+            yield f, label, buf.getvalue()
+
+
+def find_unit_numbers(ob):
+    for f, label, data in spine_variants():
+        if "epub" not in ob and "data_types" not in ob:
+            break
+        try:
+            F = failures_of(data, f)
+        except Exception:  # noqa
+            continue
+        bad = [x for x in F if x["kind"] == "unit-number"]
+        if bad:
+            return {"reproduced": True, "target": "sharepoint2text read_epub", "inputs": {"fixture": f.replace(REPO + "/", ""), "variant": label},
+                    "expected": "unit numbers are positive integers", "observed": f"{bad[0]['where']}: {bad[0]['detail']}"}
+    if "ppt_extractor" in ob or ("data_types" in ob and "::Ppt" in ob):
+        try:
+            from replay import c04_ppt
+            r = c04_ppt.find(ob)
+        except Exception as e:  # noqa
+            r = {"reproduced": False, "note": f"PPT stream replay failed: {type(e).__name__}"}
+        if r["reproduced"]:
+            return r
+    s = sweep(kinds=("unit-number",))
+    if s:
+        return {"reproduced": True, "target": ob, "inputs": {"file": s[0]["file"]}, "expected": "unit numbers are positive integers", "observed": f"{s[0]['where']}: {s[0]['detail']}"}
+    r = find_content_scope()
+    if r["reproduced"] and "unit_number" in str(r.get("observed")):
+        return r
+    return {"reproduced": False, "note": "spine variants, fixtures and hand-built content objects: every unit number is >= 1"}
 
 
 # ------------------------------------------------------ content small scope --
@@ -958,6 +1076,12 @@ def find(req):
         if "mbox_email_extractor" in ob:
             return find_mbox(fn, k)
         return {"reproduced": False, "note": "no crafted input for this decode site"}
+    if "#store-indirect" in ob or ("#store-" in ob and "metadata" in (req.get("reason") or "")):
+        r = find_field_collisions(ob)
+        if r["reproduced"]:
+            return r
+    if "/call-pre#" in ob and "-positive@" in ob and (hint or {}).get("kind") == "unit-number":
+        return find_unit_numbers(ob)
     if "/call-pre#" in ob and any(t in ob for t in ("-positive@", "size_bytes-is-len-of-payload", "-invariants@", "#store-", "class-used-as-a-value",
                                                       "not-from-a-None-source")):
         # image objects built at (or rewritten after) a constructor site: documents that reach the error branches (pictures that
@@ -986,7 +1110,8 @@ def find(req):
     if "_odf_length_to_px" in ob or "length-helper" in ob or "OpenDocumentImage.get_metadata" in ob:
         return find_odf_length(ob.split("::")[1].split("/")[0])
     if "/metadata-copied" in ob or "metadata#" in ob:
-        return find_metadata(ob, (hint or {}).get("strings"))
+        r = find_metadata(ob, (hint or {}).get("strings"))
+        return r if r["reproduced"] else (find_field_collisions(ob) if find_field_collisions(ob)["reproduced"] else r)
     if "data_types.py::" in ob and ("/raises" in ob or "/ensures#returns" in ob):
         q = ob.split("::")[1].split("/")[0]
         if "." in q:
